@@ -302,8 +302,10 @@ class CircuitTemplate(AbstractBaseTemplate):
                 self.add_node_template(n, template=node_temp)
 
         # updates to edge variable values
-        for source, target, edge_dict in edge_vars:
-            _, _, _, base_dict = self.get_edge(source, target)
+        for source, target, *idx, edge_dict in edge_vars:
+            # (source, target, attributes) addresses the first edge between the two variables,
+            # (source, target, idx, attributes) the idx-th of several parallel ones
+            _, _, _, base_dict = self.get_edge(source, target, *idx)
             base_dict.update(edge_dict)
 
         return self
